@@ -32,6 +32,9 @@ pub fn install_hook() {
                 .location()
                 .map(|l| format!("{}:{}", l.file(), l.line()))
                 .unwrap_or_else(|| "?".into());
+            if std::env::var_os("VERIF_DEBUG_PANICS").is_some() {
+                eprintln!("[panic] {} @ {}", msg, loc);
+            }
             LAST_PANIC.with(|p| *p.borrow_mut() = Some(format!("{} @ {}", msg, loc)));
         }));
     });
